@@ -2,7 +2,8 @@
    This file contains only statements closed by [exact <lemma>] and their assumptions. *)
 From Coq Require Import ZArith Reals List.
 From FF Require Import Base.Ops Inst.RInst Base.RAlg Model.Numeric Model.Consts Model.Atomic Model.Concat Model.Tie.C03
-                       Proofs.AtomicAlg Proofs.Atomic Proofs.AtomicPC Proofs.Concat Proofs.ConcatInst.
+                       Proofs.AtomicAlg Proofs.Atomic Proofs.AtomicPC Proofs.Concat Proofs.ConcatInst
+                       Inst.IInst Inst.Param Inst.EnclosureC03.
 Import ListNotations.
 
 (* ---------------------------------------------------------------------------------------------------
@@ -134,6 +135,15 @@ Theorem C03_mapping_refuted : ~ mapping_sound_on hams_ZXZ.
 Proof. exact mapping_refuted. Qed.
 Example C03_mapping_sound_two_pulses : mapping_sound_on hams_ZX.
 Proof. exact mapping_sound_two. Qed.
+(* ... while for the pulse that holds the operator FIRST the stored mapping is the right one (any number of pulses) *)
+Theorem C03_mapping_right_for_first_holder :
+  forall (oper coef : Type) (oeqb : oper -> oper -> bool) (ceqb : coef -> coef -> bool) (czero : coef),
+    (forall a b, Bool.reflect (a = b) (oeqb a b)) ->
+    forall hs p e, oper_ids_clash oper coef oeqb hs = false -> In (p, e) (flatten oper coef hs) ->
+      first_pulse oper coef oeqb hs (e_op e) = Some p ->
+      exists u, In u (uniq oper coef oeqb hs) /\ e_op (snd u) = e_op e /\
+                mapped_id oper coef oeqb hs p e = new_id oper coef oeqb hs u.
+Proof. exact mapping_right_for_first_holder. Qed.
 Theorem C03_row_assignment_refuted : ~ rows_sound_on hams_flip.
 Proof. exact row_assignment_refuted. Qed.
 
@@ -194,3 +204,17 @@ Theorem C03_decision_sound_for_proposed_fix :
     | OCopy => True
     end.
 Proof. exact decision_sound_for_proposed_fix. Qed.
+
+(* Enclosure (paramcoq, kernel-checked): the atomic-path control matrix evaluated by the correspondence check on
+   hardware-float intervals encloses the real-valued model value the theorems above are about (same for the
+   per-pulse control matrices, both pulse-correlation filter functions and the ordered propagator product:
+   Inst/EnclosureC03.v).                                                                                      *)
+Theorem C03_concat_atomic_enclosure :
+  forall d1 d2 : nat, nat_R d1 d2 ->
+  forall (thr1 : PP.M.I.type) (thr2 : R), PP.TR thr1 thr2 ->
+  forall (om1 : list PP.M.I.type) (om2 : list R), list_R _ _ PP.TR om1 om2 ->
+  forall bs1 bs2, list_R _ _ (Mat_R _ _ PP.TR) bs1 bs2 ->
+  forall ns1 ns2, list_R _ _ (Mat_R _ _ PP.TR) ns1 ns2 ->
+  forall ps1 ps2, list_R _ _ (piece_R _ _ PP.TR) ps1 ps2 ->
+  Arr3_R _ _ PP.TR (concat_atomic IOP d1 thr1 om1 bs1 ns1 ps1) (concat_atomic RO d2 thr2 om2 bs2 ns2 ps2).
+Proof. exact EnclC03.concat_atomic_enclosure. Qed.
